@@ -63,6 +63,25 @@ MUTANTS: List[dict] = [
     _m("c03-payload-lookup-by-type-only", "C03", "message.py", "const.VALID_PAYLOADS.get(self.type, {}).get(self.sub_type, \"\")", "const.VALID_PAYLOADS.get(self.type, {}).get(self.sub_type, str)", "C03-R4"),
     _m("c03-benign-in-tuple", "C03", "message.py", "vol.In([0, 1], msg=f\"Not valid ack flag", "vol.In((0, 1), msg=f\"Not valid ack flag", "", silent=True),
     _m("c03-benign-msg-text", "C03", "validation.py", "percent_int = vol.All(vol.Coerce(int), vol.Range(min=0, max=100))", "percent_int = vol.All(vol.Coerce(int), vol.Range(min=0, max=100, msg=\"percent\"))", "", silent=True),
+    # ------------------------------------------------------------------ C04 / C14
+    _m("c14-drop-alert-battery", "C14", "handler.py", "    msg.gateway.sensors[msg.node_id].battery_level = msg.payload\n    msg.gateway.alert(msg)\n", "    msg.gateway.sensors[msg.node_id].battery_level = msg.payload\n", "handle_battery_level"),
+    _m("c14-drop-alert-child-presentation", "C14", "handler.py", "    if child_id is None:\n        return None\n    msg.gateway.alert(msg)\n    return msg", "    if child_id is None:\n        return None\n    return msg", "child-insert"),
+    _m("c14-alert-skips-dirty-on-callback-error", "C14", "__init__.py", "            except Exception as exception:  # pylint: disable=broad-except\n                _LOGGER.exception(exception)\n", "            except Exception as exception:  # pylint: disable=broad-except\n                _LOGGER.exception(exception)\n                return\n", "marks dirty"),
+    _m("c14-stop-no-save", "C14", "task.py", "            self._cancel_save()\n            self._cancel_save = None\n        self.persistence.save_sensors()", "            self._cancel_save()\n            self._cancel_save = None\n            self.persistence.save_sensors()", "saves exactly once"),
+    _m("c14-flag-cleared-early", "C14", "persistence.py", "        _LOGGER.debug(\"Saving sensors to persistence file %s\", fname)\n", "        _LOGGER.debug(\"Saving sensors to persistence file %s\", fname)\n        self.need_save = False\n", "C14-R3"),
+    _m("c14-flag-cleared-in-alert", "C14", "__init__.py", "            self.tasks.persistence.need_save = True", "            self.tasks.persistence.need_save = bool(self.sensors)", "C14-R"),
+    _m("c14-heartbeat22-no-alert", "C14", "handler.py", "    msg.gateway.sensors[msg.node_id].heartbeat = msg.payload\n    msg.gateway.alert(msg)\n    return None\n\n\n@HANDLERS_22.register(\"I_PRE_SLEEP", "    msg.gateway.sensors[msg.node_id].heartbeat = msg.payload\n    return None\n\n\n@HANDLERS_22.register(\"I_PRE_SLEEP", "handle_heartbeat_response_22"),
+    _m("c14-benign-alert-via-local", "C14", "handler.py", "    msg.gateway.sensors[msg.node_id].sketch_name = msg.payload\n    msg.gateway.alert(msg)", "    gateway = msg.gateway\n    gateway.sensors[msg.node_id].sketch_name = msg.payload\n    gateway.alert(msg)", "", silent=True),
+    _m("c04-overwrite-node-on-represent", "C04", "__init__.py", "        if sensorid is not None and sensorid not in self.sensors:\n            self.sensors[sensorid] = Sensor(sensorid)", "        if sensorid is not None:\n            self.sensors[sensorid] = Sensor(sensorid)", "node insertion dominated"),
+    _m("c04-child-overwrite", "C04", "sensor.py", "        if child_id in self.children:\n            _LOGGER.warning(\n                \"child_id %s already exists in children of node %s, \"\n                \"cannot add child\",\n                child_id,\n                self.sensor_id,\n            )\n            return None\n", "", "child insertion dominated"),
+    _m("c04-alert-before-mutation", "C04", "handler.py", "    sensor.update_child_value(\n        msg.child_id,\n        msg.sub_type,\n        msg.payload,\n    )\n\n    msg.gateway.alert(msg)\n", "    msg.gateway.alert(msg)\n\n    sensor.update_child_value(\n        msg.child_id,\n        msg.sub_type,\n        msg.payload,\n    )\n", "C04-R3"),
+    _m("c04-double-alert", "C04", "handler.py", "    msg.gateway.sensors[msg.node_id].sketch_version = msg.payload\n    msg.gateway.alert(msg)\n", "    msg.gateway.sensors[msg.node_id].sketch_version = msg.payload\n    msg.gateway.alert(msg)\n    msg.gateway.alert(msg)\n", "at most one alert"),
+    _m("c04-alert-with-copy", "C04", "handler.py", "    msg.gateway.sensors[msg.node_id].sketch_name = msg.payload\n    msg.gateway.alert(msg)", "    msg.gateway.sensors[msg.node_id].sketch_name = msg.payload\n    msg.gateway.alert(msg.copy())", "inbound message"),
+    _m("c04-value-under-child-id", "C04", "handler.py", "    sensor.update_child_value(\n        msg.child_id,\n        msg.sub_type,\n        msg.payload,", "    sensor.update_child_value(\n        msg.child_id,\n        msg.child_id,\n        msg.payload,", "value stored is the reported one"),
+    _m("c04-battery-fallback-100", "C04", "validation.py", "            \"%s is not a valid battery level, falling back to battery level 0\", value\n        )\n        return 0", "            \"%s is not a valid battery level, falling back to battery level 0\", value\n        )\n        return 100", "falls back to 0"),
+    _m("c04-sketch-name-from-set", "C04", "handler.py", "    msg.gateway.alert(msg)\n\n    # Check if reboot is true", "    sensor.sketch_name = msg.payload\n    msg.gateway.alert(msg)\n\n    # Check if reboot is true", "sketch_name"),
+    _m("c04-add-sensor-from-set", "C04", "handler.py", "    if not msg.gateway.is_sensor(msg.node_id, msg.child_id):\n        return None\n\n    sensor = msg.gateway.sensors[msg.node_id]\n\n    sensor.update_child_value(", "    msg.gateway.add_sensor(msg.node_id)\n    if not msg.gateway.is_sensor(msg.node_id, msg.child_id):\n        return None\n\n    sensor = msg.gateway.sensors[msg.node_id]\n\n    sensor.update_child_value(", "add_sensor"),
+    _m("c04-benign-early-return-inverted", "C04", "handler.py", "    if not msg.gateway.is_sensor(msg.node_id):\n        return None\n    msg.gateway.sensors[msg.node_id].sketch_version = msg.payload\n    msg.gateway.alert(msg)\n    return None", "    if msg.gateway.is_sensor(msg.node_id):\n        msg.gateway.sensors[msg.node_id].sketch_version = msg.payload\n        msg.gateway.alert(msg)\n    return None", "", silent=True),
 ]
 
 
